@@ -7,8 +7,11 @@
   the live source as `Generated.registryCfg`.  `contents t0 h` is the symbol table computed from
   the history `h`; `fresh c` a new registry holding exactly `c`.
 
-  * `C12_full` — the property for the code as it is: after ANY history every call answers like
-    the fresh registry with the current contents.
+  * `C12_resolution_full` (a THEOREM since the `fix:` commits, about the live configuration): after
+    ANY history every call except `unit_system_id` — every construction from a string, `in`, `[]`,
+    and whether an edit is accepted — answers like the fresh registry with the current contents.
+  * `C12_full` — the same including `unit_system_id` (still false: the id covers the written-back
+    entries, a kept finding).
   * `C12_full_iff_repaired` — it holds exactly when the live configuration is the repaired one;
     `refines_fresh_repaired` is the full-strength theorem for the repaired machine,
     `C12_counterexample_*` the concrete failing histories of the present code.
@@ -21,6 +24,8 @@
 -/
 import UnytProofs.Lemmas.C12Sim
 import UnytProofs.Lemmas.C12Setup
+import UnytProofs.Lemmas.C12Conv
+import UnytProofs.Lemmas.C12Core
 import UnytProofs.Lemmas.C12Witness
 import UnytModel.Generated.RegistryC12Cfg
 
@@ -42,6 +47,15 @@ def FullAt (cfg : Cfg) : Prop :=
 /-- C12 at full strength for the code as it is now (`Generated.registryCfg` is regenerated from
     the live source on every run) -/
 def C12_full : Prop := FullAt Generated.registryCfg
+
+/-- the same for every call except `unit_system_id`: what units resolve to, what `in`/`[]` answer
+    and which edits are accepted -/
+def FullExceptId (cfg : Cfg) : Prop :=
+  ∀ (K : Type) [Mul K] [OfNat K 1] [OfNat K 0] [RPow K] (pre : Prefixes K)
+    (parse : String → Except Err (PExpr K)) (t0 : Lut K) (h : List (Op K)) (op : Op K),
+    op.isSysId = false →
+    Out.Sim (step cfg pre parse (run cfg pre parse (fresh t0) h) op).2
+            (step cfg pre parse (fresh (contents t0 h)) op).2
 
 section general
 variable {K : Type} [Mul K] [OfNat K 1] [OfNat K 0] [RPow K]
@@ -65,6 +79,21 @@ theorem refines_fresh_partial (t0 : Lut K) (h : List (Op K)) (op : Op K)
     Out.Sim (step cfg pre parse (run cfg pre parse (fresh t0) h) op).2
             (step cfg pre parse (fresh (contents t0 h)) op).2 :=
   step_sim cfg pre parse _ _ (invariant_on_safe_histories cfg pre parse t0 h hs) op ho
+
+/-- the table/cache part of the invariant needs only the guard of the *edits*: `unit_system_id`
+    calls interleaved anywhere do not disturb it -/
+theorem invariant_core_on_safe_histories (t0 : Lut K) (h : List (Op K))
+    (hs : safeRunCore cfg pre parse (fresh t0) h = true) :
+    Coherent pre parse (contents t0 h) (strip (run cfg pre parse (fresh t0) h)) :=
+  run_coherent_core cfg pre parse h t0 (fresh t0) (coherent_fresh pre parse t0) hs
+
+/-- `refines_fresh` for everything but the id, under the guard of the edits only -/
+theorem refines_fresh_partial_core (t0 : Lut K) (h : List (Op K)) (op : Op K)
+    (hs : safeRunCore cfg pre parse (fresh t0) h = true) (hid : op.isSysId = false)
+    (ho : opSafe cfg parse (run cfg pre parse (fresh t0) h) op = true) :
+    Out.Sim (step cfg pre parse (run cfg pre parse (fresh t0) h) op).2
+            (step cfg pre parse (fresh (contents t0 h)) op).2 :=
+  step_sim_core cfg pre parse _ _ (invariant_core_on_safe_histories cfg pre parse t0 h hs) op hid ho
 
 /-- look-ups never need the guard: constructing units, `in`, `[]` are always safe steps -/
 theorem lookups_always_safe (s : RegState K) (q : String) :
@@ -129,6 +158,49 @@ theorem unit_result_in_heap (s : RegState K) (q : String) (i : Nat) (u : UnitD K
 
 end general
 
+/-! ### using objects that outlived an edit -/
+
+section conversion
+variable {K : Type} [Add K] [Sub K] [Mul K] [Div K] [OfNat K 0] [OfNat K 1] [BEq K] [RPow K]
+variable (cfg : Cfg) (pre : Prefixes K) (parse : String → Except Err (PExpr K))
+
+/-- what two `Unit` objects without offset do to each other — `get_conversion_factor`, hence `to`,
+    `in_units`, `convert_to_units` and the rescale inside `+ - < ==` — is decided by the data the two
+    objects carry: the ratio of their stored scales, or `UnitConversionError` when their stored
+    dimensions differ.  It does not depend on the registry's state (table, caches, memo), on the
+    registry's identity, or on how the two units are spelled (`ei`, `ej` arbitrary) -/
+theorem heap_conversion_by_stored_data (s : RegState K) (i j : Nat) (ei ej : UExpr K)
+    (a b : UnitD K) (hi : s.objs[i]? = some a) (hj : s.objs[j]? = some b)
+    (ha : (a.offset == 0) = true) (hb : (b.offset == 0) = true) :
+    heapConv pre s i j ei ej =
+      if a.dim != b.dim then .error .UnitConversionError else .ok (a.scale / b.scale, none) := by
+  simp only [heapConv, hi, hj]
+  exact getConversionFactor_offset_free pre s.lut _ _ ha hb
+
+/-- `old_units_keep_value`, used: two objects that exist after a history `h` convert into each other
+    after ANY continuation `h'` (edits of their symbols included) exactly as they did before — a
+    pre-edit object is never re-read at the post-edit scale of a unit with the same name -/
+theorem old_units_convert_as_before (s0 : RegState K) (h h' : List (Op K)) (i j : Nat)
+    (ei ej ei' ej' : UExpr K) (a b : UnitD K)
+    (hi : (run cfg pre parse s0 h).objs[i]? = some a) (hj : (run cfg pre parse s0 h).objs[j]? = some b)
+    (ha : (a.offset == 0) = true) (hb : (b.offset == 0) = true) :
+    heapConv pre (run cfg pre parse s0 (h ++ h')) i j ei' ej' =
+      heapConv pre (run cfg pre parse s0 h) i j ei ej := by
+  rw [heap_conversion_by_stored_data pre _ i j ei' ej' a b
+        (old_units_keep_value cfg pre parse s0 h h' i a hi)
+        (old_units_keep_value cfg pre parse s0 h h' j b hj) ha hb,
+      heap_conversion_by_stored_data pre _ i j ei ej a b hi hj ha hb]
+
+/-- with offsets (temperature scales) `_get_conversion_factor` consults the table through
+    `_split_prefix` only; in a state coherent with the contents `c` that is the same as consulting
+    `c`: the string cache, the written-back entries and the id memo have no influence -/
+theorem conversion_independent_of_memo_layers (c : Lut K) (s : RegState K)
+    (h : Coherent pre parse c s) (u v : UnitV K) :
+    getConversionFactor pre s.lut u v = getConversionFactor pre c u v :=
+  getConversionFactor_refines pre c s.lut s.derived h.lut u v
+
+end conversion
+
 /-! ### the repaired machine: full strength -/
 
 /-- `refines_fresh` at full strength for the repaired machine (every edit clears the string
@@ -146,6 +218,17 @@ theorem refines_fresh_repaired : FullAt Cfg.repaired := by
       | cons o r ih => intro s hs; rw [run_cons]; exact ih _ (step_memoStale_repaired pre parse s o hs)
     exact this h _ rfl
   exact refines_fresh_partial Cfg.repaired pre parse t0 h op hs (opSafe_repaired parse _ op hst)
+
+/-- `refines_fresh` at full strength, for every call but `unit_system_id`, for EVERY machine whose
+    edits purge the derived entries and empty the string cache (whatever the id does): after every
+    history, every construction from a string, `in`, `[]` and the acceptance of every edit are those
+    of the fresh registry holding the current contents -/
+theorem refines_fresh_invalidating (cfg : Cfg) (hc : cfg.clearCache = true)
+    (hp : cfg.purgeDerived = true) : FullExceptId cfg := by
+  intro K _ _ _ _ pre parse t0 h op hid
+  exact refines_fresh_partial_core cfg pre parse t0 h op
+    (safeRunCore_invalidating cfg pre parse hc hp h (fresh t0)) hid
+    (opSafe_invalidating cfg parse hc hp _ op hid)
 
 /-- the invariant holds in every reachable state of the repaired machine -/
 theorem invariant_repaired {K : Type} [Mul K] [OfNat K 1] [OfNat K 0] [RPow K]
@@ -339,6 +422,25 @@ theorem not_full_of_memo_refill (cfg : Cfg) (h : cfg.memoResetLast = false) : ¬
   simp at h; subst h
   cases c <;> cases p <;> cases i <;> exact absurd key (by decide +kernel)
 
+/-- for every call but the id, the property holds exactly for the machines whose edits invalidate
+    both layers -/
+theorem fullExceptId_iff (cfg : Cfg) :
+    FullExceptId cfg ↔ (cfg.clearCache && cfg.purgeDerived) = true := by
+  constructor
+  · intro hf
+    cases hb : (cfg.clearCache && cfg.purgeDerived) with
+    | true => rfl
+    | false =>
+      exfalso
+      have key := Witness.sim_simB _ _
+        (hf Rat Witness.pre Witness.parse Witness.t0 Witness.hModify (.unit "kfoo") rfl)
+      obtain ⟨c, p, i, m⟩ := cfg
+      cases c <;> cases p <;> simp at hb <;> cases i <;> cases m <;>
+        exact absurd key (by decide +kernel)
+  · intro hb
+    simp only [Bool.and_eq_true] at hb
+    exact refines_fresh_invalidating cfg hb.1 hb.2
+
 /-- the property holds for exactly one configuration of the machine: the repaired one -/
 theorem full_iff_repaired (cfg : Cfg) : FullAt cfg ↔ cfg = Cfg.repaired := by
   constructor
@@ -361,10 +463,19 @@ theorem C12_counterexample : ¬ FullAt Cfg.asIs := not_full_of_stale_layer _ rfl
 theorem C12_full_iff_repaired : C12_full ↔ Generated.registryCfg = Cfg.repaired :=
   full_iff_repaired _
 
-/-- the live configuration is one of the two the theorems classify (a half-applied fix fails this
-    obligation and sends the run to the failing-input search) -/
-theorem active_cfg_classified :
-    Generated.registryCfg = Cfg.asIs ∨ Generated.registryCfg = Cfg.repaired := by decide
+/-- since the `fix:` commits (string-cache invalidation, purge of derived entries, memo reset after
+    `in_base`): the live source invalidates both layers on every edit and `modify` resets the memo
+    last.  Re-introducing any of the three defects flips a regenerated flag and fails this obligation -/
+theorem active_cfg_invalidates :
+    (Generated.registryCfg.clearCache && Generated.registryCfg.purgeDerived &&
+      Generated.registryCfg.memoResetLast) = true := by decide
+
+/-- C12 for the LIVE source, every call but `unit_system_id`, at full strength: after any history of
+    add / modify / remove / constructions / look-ups, what a unit string resolves to, what `in` and `[]`
+    answer, and whether an edit is accepted, are exactly those of a fresh registry with the current
+    contents -/
+theorem C12_resolution_full : FullExceptId Generated.registryCfg :=
+  refines_fresh_invalidating _ (by decide) (by decide)
 
 /-- the single-step facts the machine's `invalidate` and look-up assume of the live source:
     `add` / `modify(float)` / `remove` leave the id memo reset, `_lookup_unit_symbol` writes the
@@ -398,6 +509,14 @@ example : resolve pre (contents t0 ([.add "foo" foo2] ++ [.remove "foo"])) "foo"
     splitCandidate "kfoo" = some ("k", "foo") ∧
     safeRun Cfg.asIs pre parse (fresh t0) ([.add "foo" foo2] ++ [.remove "foo"]) = true := by
   decide +kernel
+
+open Witness in
+/-- `old_units_convert_as_before` is not vacuous: the pre-edit `foo` (2 m, cell 0) against the
+    post-edit `foo` (3 m, cell 1): factor 2/3 although both are spelled `foo` in one registry -/
+example : (match heapConv pre (run Cfg.asIs pre parse (fresh t0)
+      [.add "foo" foo2, .unit "foo", .modifyF "foo" 3, .unit "foo"]) 0 1 ⟨1, [("foo", 1)]⟩ ⟨1, [("foo", 1)]⟩ with
+    | .ok (f, none) => f == (2 : Rat) / 3
+    | _ => false) = true := by decide +kernel
 
 open Witness in
 /-- `old_units_keep_value` is not vacuous: the object built before the modification is cell 0 -/
